@@ -380,7 +380,7 @@ theorem new_stop_rules (seq : List Char)
         rw [hsplit, habc]; simp [GCSpec.translate]
       by_cases hstop : (GCSpec.translate seq s).getLast? = some '*'
       · simp only [h3, hstop, if_true, bind, Except.bind, htr _ htake hsm2, hdl,
-          (hnox _ htake).1, (hnox _ htake).2, hdl ▸ (hnox _ htake).1, hdl ▸ (hnox _ htake).2]
+          hdl ▸ (hnox _ htake).1, hdl ▸ (hnox _ htake).2]
         cases io <;> cases is_ <;> by_cases h : '*' ∈ (GCSpec.translate seq s).dropLast <;>
           simp [h, outcomeToExcept, throw, throwThe, MonadExceptOf.throw, pure, Except.pure,
             hdl ▸ (hnom _ htake).1, hdl ▸ (hnom _ htake).2]
